@@ -182,6 +182,18 @@ CHECKS = {
         'quick': {'shards': 16, 'timeout': 900},
         'thorough': {'shards': 16, 'timeout': 5400},
     },
+    'C09': {
+        'pkg': 'internal/server', 'test': 'TestVerif_C09', 'level': 'exploration',
+        'technique': 'runtime differential monitor against a plain TCP relay: byte taps on the peer connection and on the connection the real Serve loop dials to the redirect target, hostile input scripts with segmentation and (virtual-time) pauses, target response scripts, not-wedged probe with a genuine client, crash attribution per child process',
+        'level_text': 'Hostile connections are played against the real Serve loop in a bubble: all first-byte values, random bytes, TLS records whose declared length is below/at/above the 3000-byte buffer with bodies shorter/equal/longer than declared, browser-like hellos, genuine Cloak hellos that are bit-mutated, truncated, replayed, '
+                      'from an unauthorised UID or for an unknown proxy method, HTTP requests with no/bogus/over-long headers, LF-only line ends, byte-wise slow delivery and stalls beyond the 15 s first-packet timeout; the target answers immediately, after the request, in chunks, late (after 16 s), never, or closes early. '
+                      'Oracle: target bytes are a prefix of the peer\'s stream and all of it for complete/unrecognisable first packets, peer bytes are exactly the target\'s reply, the relay is not cut while both ends stay open, closing one end closes the other, and a genuine client is still served afterwards. A concurrent variant connects ~25 hostile peers at once and matches target streams by content.',
+        'level_note': 'Assumes ' + A_RACE + ' and ' + A_HARNESS + '. Not demanded: relaying when the target cannot be dialled; refusal of over-cap users; full delivery of the reply when the peer closes first.',
+        'rule': 'case = one hostile connection (input kind x segmentation x pauses x target response script); distinct = hash(kind, reply script, length, index); input_kinds counts distinct kind/response combinations; non-trivial = at least one byte was sent and both taps were compared at quiescence',
+        'assumptions': [A_RACE, A_HARNESS],
+        'quick': {'shards': 16, 'timeout': 900},
+        'thorough': {'shards': 16, 'timeout': 5400},
+    },
 }
 
 NOT_APPLICABLE = {p: 'check not built yet in this round (the design in DESIGN.md section 3 applies; runtime monitoring can decide it)'
